@@ -54,7 +54,7 @@ def _writers(ctx: Ctx, c: Collector) -> None:
     connect_async_requests only (plus the constructor)."""
     allowed = {"mosaik.scenario.World.connect_one", "mosaik.scenario.World.connect_async_requests", "mosaik.simmanager.SimRunner.__init__"}
     writers = set()
-    for fi in ctx.prog.all_functions():
+    for fi in analysis_units(ctx.prog):
         for e in summarise(ctx.prog, fi).events:
             tgt = None
             if e.kind == "store":
@@ -297,6 +297,20 @@ def _ancestors(ctx: Ctx, c: Collector) -> None:
                 pr.append("closure loops not recognised")
         else:
             pr.append("closure loops not recognised")
+    # nothing but "the new path is shorter" may stand between a trigger path and its entry: a condition on the
+    # simulator (its type, whether it has outputs, ...) cuts the closure at that simulator
+    for e, what in [(x, "seeding") for x in seeds[:1]] + [(x, "closure") for x in closes[:1]]:
+        whiles = [T.strip(i[2]) for i in e.iters if i[1] == ("while",)]
+        extra = []
+        for g in e.guards:
+            gt = T.guard_term(g)
+            if T.strip(g[1]) in whiles or gt in whiles:
+                continue
+            if any(x[0] == "call" and x[1] == T.glob(UPDATE_MIN) for x in T.subterms((gt,))):
+                continue
+            extra.append(T.show(gt)[:60])
+        if extra:
+            pr.append(f"the {what} is skipped unless {' and '.join(extra)}: trigger paths through the other simulators are not entered, so their ancestors do not bound the progress / max_advance of the simulators behind them")
     c.add("anc-closure", ANC, "trigger-ancestor closure: seed every trigger edge, combine src->mid + mid->dest, re-queue dest", VIOLATED if pr else DISCHARGED, "; ".join(pr), fi.loc)
 
 
@@ -346,8 +360,9 @@ def _interval(ctx: Ctx, c: Collector) -> None:
             from .. import boolfn
             ROOT = ("attr", common, "parent")
             try:
-                for a, fired in tables.rows([("t0", without_asserts(s, e0.guards)), ("tw", without_asserts(s, ew.guards)), ("ret", without_asserts(s, r.guards))], [ts, wk, ROOT]):
-                    if "ret" not in fired:
+                rej = [(f"rej{x.idx}", without_asserts(s, x.guards)) for x in s.of_kind("raise") if x.idx < r.idx]
+                for a, fired in tables.rows([("t0", without_asserts(s, e0.guards)), ("tw", without_asserts(s, ew.guards)), ("ret", without_asserts(s, r.guards))] + rej, [ts, wk, ROOT]):
+                    if "ret" not in fired or any(f.startswith("rej") for f in fired):
                         continue          # rejected (weak outside a group)
                     if a[ts] and "t0" not in fired:
                         pr.append("a connection that is %stime-shifted loses its time shift" % ("weak and " if a[wk] else ""))
